@@ -464,10 +464,11 @@ func parseFrozen(b []byte) (FFields, iset) {
 
 // chunkReader delivers at most sizes[i%len] bytes per Read call.
 type chunkReader struct {
-	b     []byte
-	pos   int
-	sizes []int
-	calls int
+	b       []byte
+	pos     int
+	sizes   []int
+	calls   int
+	eofData bool // deliver the last bytes together with io.EOF (allowed by the io.Reader contract)
 }
 
 func (c *chunkReader) Read(p []byte) (int, error) {
@@ -484,6 +485,9 @@ func (c *chunkReader) Read(p []byte) (int, error) {
 	}
 	copy(p, c.b[c.pos:c.pos+n])
 	c.pos += n
+	if c.eofData && c.pos == len(c.b) {
+		return n, io.EOF
+	}
 	return n, nil
 }
 
@@ -634,6 +638,9 @@ func (e *Exec) doSerial(c *Call, ev *Event, targets *[]int) bool {
 			posOK = rd.Len() == sentinelLen
 		case 1:
 			rd := &chunkReader{b: withSentinel, sizes: chunkings[c.J%len(chunkings)]}
+			if e.rng.Intn(3) == 0 { // the bitmap ends the stream and the reader reports EOF together with the last bytes
+				rd = &chunkReader{b: b, sizes: chunkings[c.J%len(chunkings)], eofData: true}
+			}
 			n, lerr = nb.ReadFrom(rd)
 			// a buffered adapter may read ahead only if the contract says so; the property demands exact consumption
 			posOK = rd.pos == len(b)
@@ -743,7 +750,7 @@ func (e *Exec) doSerial(c *Call, ev *Event, targets *[]int) bool {
 			ev.Skip = true
 			return true
 		}
-		cb := e.registerBuf(alignedCopy(b, 32))
+		cb := e.registerFrozen(alignedCopy(b, 32))
 		nb := roaring.New()
 		var verr error
 		if c.V == 1 {
